@@ -64,7 +64,7 @@ def gen_cases(tier, seed):
                           "channels": rnd.choice(["1", "1", "2", "3", "rgb", "rgb+1", "1+rgb",
                                                   "rgb+rgb"]),
                           "naming": rnd.choice(["padded", "padded", "plain", "mixed"]),
-                          "dtype": rnd.choice(["uint8", "uint8", "uint16", "int16"]),
+                          "dtype": rnd.choice(["uint8", "uint8", "uint16", "int16", "uint64"]),
                           "fmt": rnd.choice(["png", "png", "tif"]),
                           "storage": storage,
                           "slice_rel": r % 3,   # 0: fewer than, 1: equal to, 2: not a multiple
@@ -136,6 +136,8 @@ def run_case(case):
     fmt = "png" if (rgb or dt == np.uint8) else case["fmt"]
     g = np.random.default_rng(case["vseed"])
     out_dt = dt
+    if dt == np.uint64:
+        fmt = "tif"          # 64-bit label slices (TIFF only, written with tifffile)
     if dt == np.int16:
         # signed pixels (TIFF) stored into an unsigned or a float32 dataset: negative pixels
         # saturate at 0 resp. are kept (the conversion rule of the chunk type converter)
@@ -161,6 +163,7 @@ def run_case(case):
            "reversed_slice_axis": int(code[2] in "LPI"), "rgb": int(rgb),
            "multi_dir": int(ndirs > 1), "rgb_followed_by_another_directory": int(
                "rgb" in layout[:-1]),
+           "uint64_slices": int(dt == np.uint64),
            "unpadded_names_with_10_or_more_slices": int(
                case.get("naming", "padded") != "padded" and ns >= 11), "uint16": int(dt == np.uint16), "tiff": int(fmt == "tif"),
            "cli_runs": 0, "storage": {case["storage"]: 1}}
@@ -178,13 +181,15 @@ def run_case(case):
                            + [f"S_{i:02d}x" for i in range(ns - ns // 2)])
         ch0 = 0
         for d, kind_ in enumerate(layout):
-            p = os.path.join(top, f"in{d}")
+            # directory names are NOT in lexicographic order: channels follow the order in
+            # which the directories are given
+            p = os.path.join(top, ["z_first", "m_second", "a_third"][d] if d < 3 else f"in{d}")
             os.makedirs(p)
             dirs.append(p)
             for i in range(ns):
                 if kind_ == "rgb":
                     img = PIL.Image.fromarray(np.moveaxis(stack[ch0:ch0 + 3, i], 0, -1))
-                elif dt == np.int16:
+                elif dt in (np.int16, np.uint64):
                     import tifffile
                     tifffile.imwrite(os.path.join(p, f"{names[i]}.{fmt}"), stack[ch0, i])
                     continue
@@ -296,6 +301,7 @@ def gates(obs, tier):
         "uint16_and_tiff": obs.get("uint16", 0) > 0 and obs.get("tiff", 0) > 0,
         "stacks_mixing_8_and_16_bit_slices": obs.get(
             "stacks_mixing_8_and_16_bit_slices", 0) > 5,
+        "uint64_label_slices": obs.get("uint64_slices", 0) > 10,
         "signed_pixels_with_negative_values": obs.get("signed_pixels_into_other_type", 0) > 20,
         "all_storage_options": len(obs.get("storage", {})) == 5,
         "command_line_runs": obs.get("cli_runs", 0) > 10,
